@@ -306,6 +306,18 @@ Example unbuildable_chain_now_rolled_back :
   kernels (cnn_run st c a0 unbuildable_chain) = [5; 1; 7; 7; 7; 5] /\ cnn_valid st (cnn_run st c a0 unbuildable_chain) = true.
 Proof. cbv zeta. split; vm_compute; reflexivity. Qed.
 
+(* kernels_fit (and therefore the roll-back decision, compared with the real module on every run) follows the STRIDED feature
+   maps: 32x32 input, kernels [4;3], strides [4;1] — layer 1 sees an 8x8 map, so kernel 8 is installed and 9 is rolled back
+   (a stride-1 map of 29 would accept it) *)
+Example strided_kernel_rolled_back :
+  let st := {| cs_in_ch := 3; cs_h := 32; cs_w := 32; cs_out := 16; cs_layer_norm := false |} in
+  let c := {| c_min_layers := 1; c_max_layers := 6; c_min_ch := 32; c_max_ch := 256 |} in
+  let a := {| channels := [32; 32]; kernels := [4; 3]; strides := [4; 1] |} in
+  cnn_step st c a (CChangeKernel (Some 9) (Some 1)) 0 0 = (a, "change_kernel"%string, [1; 3]) /\
+  kernels (arch_of (cnn_step st c a (CChangeKernel (Some 8) (Some 1)) 0 0)) = [4; 8] /\
+  kernels_fit 32 32 [4; 9] [4; 1] = false /\ kernels_fit 32 32 [4; 9] [1; 1] = true.
+Proof. cbv zeta. repeat split; reflexivity. Qed.
+
 Theorem add_layer_effective_cnn : forall st c a r1 r2,
   let mk := last (max_kernels (cs_h st) (cs_w st) (kernels a) (strides a)) 1 in
   zlen (channels a) < c_max_layers c -> 2 < fst (last_fmap (cs_h st) (cs_w st) (kernels a) (strides a)) ->
